@@ -83,10 +83,11 @@ pub trait Family: Sync + Send {
     fn name(&self) -> &'static str;
     /// number of runs in the given tier
     fn runs(&self, tier: Tier) -> u64;
-    /// plan number `index` of the batch (families that enumerate a finite space map the index to
-    /// a point of that space; everything else is drawn from `seed`, which is already mixed from
-    /// (VERIF_SEED, property, family, index))
-    fn generate(&self, seed: u64, index: u64, tier: Tier) -> Value;
+    /// plan number `index` of the batch and the schedule seed it runs under. Families that
+    /// enumerate a finite space map the index to a point of that space; everything else is drawn
+    /// from `mix(batch_seed, family, index)`. Crash-point sweeps keep plan and schedule seed fixed
+    /// over a group of indices and move only the fault's trigger step.
+    fn generate(&self, batch_seed: u64, index: u64, tier: Tier) -> (Value, u64);
     fn exec(&self, plan: &Value, sched: &Sched, record: bool) -> Outcome;
     /// what makes a run non-trivial / how runs are generated (goes into the evidence `rule`)
     fn rule(&self) -> &'static str;
@@ -226,8 +227,7 @@ fn run_family(check: &Check, fam: &dyn Family, o: &Opts) -> (Agg, Vec<(u64, u64)
                     let mut digs = vec![];
                     let mut i = w as u64;
                     while i < n {
-                        let seed = mix(o.seed, &tag, i);
-                        let plan = fam.generate(seed, i, o.tier);
+                        let (plan, seed) = fam.generate(mix(o.seed, &tag, 0), i, o.tier);
                         let out = exec_caught(check.property, fam, &plan, &Sched::Seeded(seed), false);
                         a.evaluations += 1;
                         a.steps += out.steps;
@@ -621,8 +621,7 @@ pub fn run_check(check: &Check, o: &Opts) -> i32 {
                 continue; // report at most a few classes per family in detail
             }
             n_viol += 1;
-            let seed = mix(o.seed, &format!("{}/{}", check.property, fam.name()), *idx);
-            let plan = fam.generate(seed, *idx, o.tier);
+            let (plan, seed) = fam.generate(mix(o.seed, &format!("{}/{}", check.property, fam.name()), 0), *idx, o.tier);
             let m = minimise(check.property, fam.as_ref(), &plan, seed, &v.class, if o.tier == Tier::Quick { 20.0 } else { 60.0 });
             let path = write_replay(&o.verif_dir.join("replays"), check, fam.as_ref(), o, *idx, &v.class, &m);
             println!("violation class={} family={} run={} : {}", v.class, fam.name(), idx, v.msg);
